@@ -41,6 +41,16 @@ def nearest_sat(v, dt):
     raise ValueError
 
 
+def frac_of_float(v):
+    """Exact value of a float as a Fraction; +-inf as a value beyond every target range."""
+    v = float(v)
+    if v == float("inf"):
+        return Fraction(10 ** 60)
+    if v == float("-inf"):
+        return Fraction(-10 ** 60)
+    return Fraction(v)
+
+
 def gen_values(rng, dt, n, safe_for):
     """Values of on-disk dtype dt, kept outside the regions of the C11 known
     findings (|v| < 2^53 for 64-bit integers; floats within the target range
@@ -55,6 +65,10 @@ def gen_values(rng, dt, n, safe_for):
         vals = [rng.choice(pool) if rng.random() < 0.4 else rng.randrange(lo, hi + 1) for _ in range(n)]
         return np.array(vals, dtype=dt)
     pool = [0.0, 0.5, 1.5, 2.5, -0.5, -1.5, 254.5, 255.5, 256.0, 65535.5, 1e6, -3.25, 0.49999, 1e-3]
+    if safe_for == "huge":
+        # far above every integer target range (saturation at the top, up to and including 2^64 and inf)
+        pool = pool + [2.0 ** 32, 2.0 ** 32 - 1, 2.0 ** 63, 2.0 ** 64, 1.8e19, 3e19, 1e30, float("inf"), -1e30,
+                       4294967040.0, 4294967296.0 * 3]
     vals = [rng.choice(pool) if rng.random() < 0.5 else rng.uniform(-300, 70000) for _ in range(n)]
     return np.array(vals, dtype=dt)
 
@@ -76,6 +90,10 @@ def _one(R, rng, i):
     layout = rng.choice(["3d", "3d", "4d", "rgb"])
     shape = [rng.choice([1, 1, 2, 3, 4, 5, 7, 8, 9, 13, rng.randrange(1, 14)]) for _ in range(3)]
     disk = rng.choice(DISK)
+    forced_huge = {6: ("float64", "uint64"), 7: ("float32", "uint64"), 8: ("float32", "uint32"),
+                   9: ("float64", "uint16")}.get(i)
+    if forced_huge:
+        layout, disk = rng.choice(["3d", "4d"]), forced_huge[0]
     if layout == "rgb":
         disk = "uint8"
         rgb = gen_values(rng, "uint8", int(np.prod(shape)) * 3, None).reshape(shape + [3])
@@ -87,6 +105,9 @@ def _one(R, rng, i):
     else:
         nch = 1
         data = gen_values(rng, disk, int(np.prod(shape)), None).reshape(shape)
+    huge = i >= 6 and disk in ("float32", "float64") and layout != "rgb" and (bool(forced_huge) or rng.random() < 0.35)
+    if huge:
+        data = gen_values(rng, disk, data.size, "huge").reshape(data.shape)
     slope = inter = None
     if layout != "rgb" and rng.random() < 0.3:
         slope, inter = rng.choice([(2.0, 0.0), (0.5, 1.0), (-1.0, 10.0), (1.0, -3.0)])
@@ -113,10 +134,18 @@ def _one(R, rng, i):
         ignore = forced[1] and slope is not None
         if forced[2]:
             in_minmax = rng.choice([(0.0, 255.0), (-100.0, 100.0), (10.0, 20.0), (None, 1000.0)])
-    if layout != "rgb" and in_minmax is None and rng.random() < 0.2:
+    if huge:
+        in_minmax = None          # plain conversion of huge values: saturation, no rescaling
+        slope = inter = None
+        pipeline.write_nifti(nii, data, affine=np.diag(list(vox) + [1.0]))
+        ignore = False
+    if layout != "rgb" and in_minmax is None and not huge and rng.random() < 0.2:
         in_minmax = rng.choice([(0.0, 255.0), (None, 1000.0), (-100.0, 100.0), (10.0, 20.0), (-100.0, 0.0),
                                 (-2.0, 0.0)])
     target = rng.choice([None, None] + NG)
+    if huge:
+        target = forced_huge[1] if forced_huge else rng.choice(["uint64", "uint64", "uint32", "uint16", "uint8"])
+        R.count("float-huge-values->" + target)
     if in_minmax and target == "uint64":
         target = "uint32"      # float -> uint64 at the top of the range is the C11 finding, kept out of C01
     if in_minmax and target is None and disk in ("uint64", "int64"):
@@ -231,11 +260,11 @@ def _one(R, rng, i):
         k = Fraction(omax - omin) / (Fraction(imax) - Fraction(imin))
 
         def mapv(v):
-            return (Fraction(float(v)) - Fraction(imin)) * k + omin
+            return (frac_of_float(v) - Fraction(imin)) * k + omin
         tol = 1
     else:
         def mapv(v):
-            return Fraction(int(v)) if src.dtype.kind in "ui" else Fraction(float(v))
+            return Fraction(int(v)) if src.dtype.kind in "ui" else frac_of_float(v)
     expected = np.zeros((nch, shape[2], shape[1], shape[0]), dtype=out_dt)
     flat_exact = []
     for idx in np.ndindex(*src.shape):
